@@ -20,6 +20,11 @@ def fun(x):
     return x * x * x * 0.25 + np.sqrt(x + 0.5) * x
 
 
+def fun_pow(x):
+    """the same function written with the power operator"""
+    return x ** 3 * 0.25 + (x + 0.5) ** 0.5 * x
+
+
 def base_values(size):
     p = np.arange(size)
     return 0.75 + 0.125 * ((7 * p) % 11) - 0.25 * (p % 3)
@@ -50,6 +55,8 @@ def run_case(ri):
         alt[mask] += 0.37
     elif r['others'] == 'scaled':
         alt[mask] *= 1.5
+    elif r['others'] == 'zero':
+        alt[mask] = 0.0                         # exactly zero neighbours (zero divisors for bicomplex powers)
     elif r['others'] == 'huge':
         alt[mask] = 1e16                        # x + h == x for every generated step there
     else:
@@ -57,12 +64,15 @@ def run_case(ri):
     probs = []
     try:
         with np.errstate(all='ignore'):
-            d = nd.Derivative(fun, n=r['n'], method=r['m'], order=r['o'], full_output=True)
+            # multicomplex: half of the cases use the power operator (bicomplex powers go through log/exp); for the other methods
+            # numpy's array and scalar pow round differently, which would break the exactly-rounded premise of the bit-identity clauses
+            FUN = fun_pow if (ri % 2 and r['m'] == 'multicomplex') else fun
+            d = nd.Derivative(FUN, n=r['n'], method=r['m'], order=r['o'], full_output=True)
             x = with_layout(vals, shape, r['layout'])
             v1, i1 = d(x)
-            v2, i2 = nd.Derivative(fun, n=r['n'], method=r['m'], order=r['o'], full_output=True)(with_layout(alt, shape, r['layout']))
-            v3, i3 = nd.Derivative(fun, n=r['n'], method=r['m'], order=r['o'], full_output=True)(float(vals[col]))
-            v4, i4 = nd.Derivative(fun, n=r['n'], method=r['m'], order=r['o'], full_output=True)(np.array(vals).reshape(shape))
+            v2, i2 = nd.Derivative(FUN, n=r['n'], method=r['m'], order=r['o'], full_output=True)(with_layout(alt, shape, r['layout']))
+            v3, i3 = nd.Derivative(FUN, n=r['n'], method=r['m'], order=r['o'], full_output=True)(float(vals[col]))
+            v4, i4 = nd.Derivative(FUN, n=r['n'], method=r['m'], order=r['o'], full_output=True)(np.array(vals).reshape(shape))
     except Exception as ex:
         return ['raises: %s: %s' % (type(ex).__name__, str(ex)[:150])]
     if np.shape(v1) != shape:
